@@ -12,12 +12,14 @@ namespace Bee2V.C01
 open Bee2V.C01.SpecHashL
 
 /-- a toy cipher that depends on key and data and preserves the block length, for the non-vacuity examples -/
-def specToy : Cipher := ⟨fun k x => (xorb x (k ++ zeros 16)).map (· * 3 + 1), fun _ x => x⟩
+def specToy : Cipher :=
+  ⟨fun k x => (xorb (xorb x (k ++ zeros 16)) (k.drop 16 ++ zeros 16)).map (· * 3 + 1), fun _ x => x⟩
 
 /-- `hlen` is satisfiable (besides belt itself, see the corollaries) -/
 theorem specToy_hlen : ∀ k x : Bytes, x.length = 16 → (specToy.enc k x).length = 16 := by
   intro k x h
-  simp only [specToy, List.length_map, SpecHashL.length_xorb, List.length_append, h, length_zeros]
+  simp only [specToy, List.length_map, SpecHashL.length_xorb, List.length_append, List.length_drop, h,
+    length_zeros]
   omega
 
 /-! ### belt-compress -/
@@ -179,8 +181,7 @@ theorem pbkdf2_spec (C : Cipher) (hlen : ∀ k x : Bytes, x.length = 16 → (C.e
   have hf : (fun acc i => xorb acc (Spec.pbkdfU C.enc pwd salt (0 + 1 + i))) =
       (fun acc i => xorb acc (Spec.pbkdfU C.enc pwd salt (i + 1))) := by
     funext acc i
-    congr 2
-    omega
+    rw [show 0 + 1 + i = i + 1 by omega]
   rw [hf]
   rfl
 
@@ -199,11 +200,13 @@ theorem belt_pbkdf2_spec (pwd salt : Bytes) (iter : Nat) (hi : 1 ≤ iter) (hk :
     pbkdf2 beltCipher pwd iter salt = (.ok, some (Spec.pbkdf2 blockEncr pwd iter salt)) :=
   pbkdf2_spec beltCipher (fun k x h => length_blockEncr k x h) pwd salt iter hi hk hs
 
-/-- checked by evaluation: three iterations -/
-example : pbkdf2 specToy [1, 2, 3] 3 [9, 8] = (.ok, some (Spec.pbkdf2 specToy.enc [1, 2, 3] 3 [9, 8])) := by
+/-- checked by evaluation: two iterations -/
+example : pbkdf2 specToy [1, 2, 3] 2 [9, 8] = (.ok, some (Spec.pbkdf2 specToy.enc [1, 2, 3] 2 [9, 8])) := by
   decide +kernel
-example : Spec.pbkdf2 specToy.enc [1, 2, 3] 3 [9, 8] ≠ Spec.pbkdf2 specToy.enc [1, 2, 3] 2 [9, 8] := by
+/-- the second iteration changes the key; `iter = 0` is rejected -/
+example : Spec.pbkdf2 specToy.enc [1, 2, 3] 2 [9, 8] ≠ Spec.pbkdf2 specToy.enc [1, 2, 3] 1 [9, 8] := by
   decide +kernel
+example : pbkdf2 specToy [1, 2, 3] 0 [9, 8] = (.badInput, none) := by decide
 
 /-! ### belt-keyrep -/
 
